@@ -991,6 +991,12 @@ where
     /// Returns `TdsValidationError` if neighbor assignment fails due to inconsistent
     /// data structures or invalid facet sharing patterns.
     fn assign_neighbors(&mut self) -> Result<(), TdsValidationError> {
+        #[cfg(delaunay_verif)]
+        if crate::verif::fail::hit("prim.assign_neighbors") {
+            return Err(TdsValidationError::InconsistentDataStructure {
+                message: "verif: injected failure at prim.assign_neighbors".to_string(),
+            });
+        }
         // Build facet mapping with vertex index information using optimized collections
         // facet_key -> [(cell_key, vertex_index_opposite_to_facet)]
         type FacetInfo = (CellKey, usize);
@@ -1688,6 +1694,13 @@ where
         &mut self,
         vertex: Vertex<T, U, D>,
     ) -> Result<VertexKey, TdsConstructionError> {
+        #[cfg(delaunay_verif)]
+        if crate::verif::fail::hit("prim.insert_vertex") {
+            return Err(TdsValidationError::InconsistentDataStructure {
+                message: "verif: injected failure at prim.insert_vertex".to_string(),
+            }
+            .into());
+        }
         let vertex_uuid = vertex.uuid();
 
         // Use Entry API for atomic check-and-insert
@@ -1734,6 +1747,13 @@ where
         &mut self,
         cell: Cell<T, U, V, D>,
     ) -> Result<CellKey, TdsConstructionError> {
+        #[cfg(delaunay_verif)]
+        if crate::verif::fail::hit("prim.insert_cell") {
+            return Err(TdsValidationError::InconsistentDataStructure {
+                message: "verif: injected failure at prim.insert_cell".to_string(),
+            }
+            .into());
+        }
         // Phase 3A: Validate structural invariants using vertices
         debug_assert_eq!(
             cell.number_of_vertices(),
@@ -2797,6 +2817,13 @@ where
         &mut self,
         vertex: &Vertex<T, U, D>,
     ) -> Result<usize, TdsMutationError> {
+        #[cfg(delaunay_verif)]
+        if crate::verif::fail::hit("prim.tds_remove_vertex") {
+            return Err(TdsValidationError::InconsistentDataStructure {
+                message: "verif: injected failure at prim.tds_remove_vertex".to_string(),
+            }
+            .into());
+        }
         // Find the vertex key
         let Some(vertex_key) = self.vertex_key_from_uuid(&vertex.uuid()) else {
             return Ok(0); // Vertex not found, nothing to remove
@@ -3054,6 +3081,13 @@ where
         cell_key: CellKey,
         neighbors: &[Option<CellKey>],
     ) -> Result<(), TdsMutationError> {
+        #[cfg(delaunay_verif)]
+        if crate::verif::fail::hit("prim.set_neighbors") {
+            return Err(TdsValidationError::InconsistentDataStructure {
+                message: "verif: injected failure at prim.set_neighbors".to_string(),
+            }
+            .into());
+        }
         // Validate the topological invariant before applying changes
         // (includes length check: neighbors.len() == D+1)
         self.validate_neighbor_topology(cell_key, neighbors)?;
@@ -3174,6 +3208,13 @@ where
     /// assert!(all_assigned);
     /// ```
     pub fn assign_incident_cells(&mut self) -> Result<(), TdsMutationError> {
+        #[cfg(delaunay_verif)]
+        if crate::verif::fail::hit("prim.assign_incident_cells") {
+            return Err(TdsValidationError::InconsistentDataStructure {
+                message: "verif: injected failure at prim.assign_incident_cells".to_string(),
+            }
+            .into());
+        }
         if self.cells.is_empty() {
             // No cells remain; all vertices must have incident_cell cleared to avoid
             // dangling pointers to previously removed cells.
@@ -3302,6 +3343,13 @@ where
     /// Returns [`TdsValidationError::InconsistentDataStructure`] if neighbor references are
     /// dangling, mirror facets cannot be derived, or orientation constraints are contradictory.
     pub(crate) fn normalize_coherent_orientation(&mut self) -> Result<(), TdsValidationError> {
+        #[cfg(delaunay_verif)]
+        if crate::verif::fail::hit("prim.normalize_coherent_orientation") {
+            return Err(TdsValidationError::InconsistentDataStructure {
+                message: "verif: injected failure at prim.normalize_coherent_orientation"
+                    .to_string(),
+            });
+        }
         let mut flip_assignment: FastHashMap<CellKey, bool> =
             fast_hash_map_with_capacity(self.cells.len());
 
@@ -3842,6 +3890,12 @@ where
     ///
     /// [`DelaunayTriangulation::validation_report()`]: crate::core::delaunay_triangulation::DelaunayTriangulation::validation_report
     pub(crate) fn validate_facet_sharing(&self) -> Result<(), TdsValidationError> {
+        #[cfg(delaunay_verif)]
+        if crate::verif::fail::hit("prim.validate_facet_sharing") {
+            return Err(TdsValidationError::InconsistentDataStructure {
+                message: "verif: injected failure at prim.validate_facet_sharing".to_string(),
+            });
+        }
         // Build a map from facet keys to the cells that contain them.
         // Use the strict version to ensure we catch any missing vertex keys.
         let facet_to_cells = self.build_facet_to_cells_map()?;
